@@ -23,6 +23,7 @@ type Peer struct {
 	Inbound  bool
 	mu       sync.Mutex
 	synced   bool
+	resyncs  uint64 // number of resyncs requested so far
 	err      error
 }
 
@@ -71,6 +72,33 @@ func (p *Peer) setSynced(synced bool) {
 	p.mu.Lock()
 	defer p.mu.Unlock()
 	p.synced = synced
+}
+
+// resyncCount returns the number of resyncs requested for the peer so far.
+func (p *Peer) resyncCount() uint64 {
+	p.mu.Lock()
+	defer p.mu.Unlock()
+	return p.resyncs
+}
+
+// requestResync marks the peer as unsynced. The request is counted, so that a
+// sync that was already in progress does not mark the peer as synced again when
+// it completes.
+func (p *Peer) requestResync() {
+	p.mu.Lock()
+	defer p.mu.Unlock()
+	p.resyncs++
+	p.synced = false
+}
+
+// setSyncedSince marks the peer as synced unless a resync was requested after
+// the sync began, i.e. after resyncCount returned count.
+func (p *Peer) setSyncedSince(count uint64) {
+	p.mu.Lock()
+	defer p.mu.Unlock()
+	if p.resyncs == count {
+		p.synced = true
+	}
 }
 
 // Close closes the peer's connection.
